@@ -145,7 +145,7 @@ def families(eng, tier, seed):
     for ho in ("insertion", "reversed"):
         for n, r in C.items():
             if n in ("boxed_param",): continue
-            reg = strip_segment(r, ("v1", "v2")) if n == "versions" else strip_segment(r, ("h1", "h2")) if n == "versions_hdr" else r
+            reg = strip_segment(r, ("v1", "v2")) if n == "versions" else strip_segment(r, ("h1", "h2")) if n in ("versions_hdr", "versions_hdr_mirror") else r
             fams.append(make_family("corpus-%s-%s" % (n, ho), (lambda reg: lambda eng: symbolize_leaves(eng, reg, tie_paths=True))(reg), ho))
         for ename, efn in c03.edits():
             if ename in ("nested-struct-other-path", "boxed-self-vs-plain"): continue
